@@ -22,7 +22,9 @@ RULE = ("(a) exhaustive: every condition tree with <= N connective nodes (N=2 qu
         "negations at every depth) over C01's 6-leaf alphabet, wrapped in 1 and in 2 further negations, on the "
         "truth-table-complete 32-object domain, and the same for C02's six two-variable leaves (joins) on its fixed 3x4 world; (b) random: 1-3 variables, depth<=4, negation probability raised to "
         "0.35 per node so leaves sit under 0-4 negations, all six comparison operators, contains/in_ both directions, "
-        "boolean calls and attributes, both predicate kinds, HasType, root wrapped in 1-3 negations spelled not_ or ~. "
+        "boolean calls and attributes, both predicate kinds, HasType, root wrapped in 1-3 negations spelled not_ or ~; "
+        "(c) random depth<=2 trees of comparisons between PARTIALLY ordered attribute values (frozensets, floats with NaN), "
+        "where the complement of a<b is not a>=b. "
         "All variables selected. Non-trivial: both c and not c have at least one satisfying assignment.")
 LEVEL_TEXT = ("Reference-model monitoring plus an oracle-free identity: rows of not_(c) must be the set complement of the rows "
               "of c within the Cartesian product and equal the oracle; not_(not_(c)) must return the rows of c. Bounded "
@@ -51,6 +53,7 @@ def plan(tier, seed):
     n = 220 if tier == "quick" else 2500
     specs += [{"kind": "rand", "n": n, "sub": i} for i in range(nsh)]
     specs += [{"kind": "exh2", "size": SIZES[tier], "stride": nsh, "offset": i} for i in range(nsh)]
+    specs += [{"kind": "po", "n": 60 if tier == "quick" else 600, "sub": 100 + i} for i in range(nsh)]
     return specs
 
 
@@ -58,10 +61,44 @@ def floors(tier):
     return {"distinct_nontrivial": 500, "leaf.ok": 5000, "re:cls:neg_depth>=2": 200, "cls:tag:neg:in": 10,
             "cls:tag:neg:has": 10, "cls:tag:neg:truth": 10, "cls:tag:neg:fpred": 5, "cls:tag:neg:cpred": 5,
             "cls:tag:neg:hastype": 3, "re:cls:tag:neg:cmp.*": 100, "re:ElseIf(@.*)?\\.enter": 500,
-            "re:AND(@.*)?\\.enter": 500, "cls:nvars=2": 50, "cls:nvars=3": 50}
+            "re:AND(@.*)?\\.enter": 500, "cls:nvars=2": 50, "cls:nvars=3": 50,
+            "cls:partial_order:sets": 200, "cls:partial_order:nan": 200}
+
+
+def _po_case(rng):
+    """Partially ordered values (sets under <, <=; NaN): the complement of a < b is NOT a >= b."""
+    from .c02 import A
+    mode = rng.choice(["sets", "nan"])
+
+    def val():
+        if mode == "sets":
+            return {"fs": sorted(rng.sample([1, 2, 3], rng.randint(0, 3)))}
+        return rng.choice(["nan", 1.0, 2.0, "nan", 3.0])
+    kinds = rng.choice([["P", "Q"], ["P", "P"], ["P"]])
+    nP, nQ = rng.randint(2, 4), rng.randint(2, 4)
+    world = {"P": [{"a": val(), "b": val()} for _ in range(nP)],
+             "Q": [{"a": val(), "b": val(), "p": rng.randrange(nP)} for _ in range(nQ)]}
+
+    def leaf():
+        i, j = rng.randrange(len(kinds)), rng.randrange(len(kinds))
+        return ["cmp", rng.choice(["<", "<=", ">", ">=", "==", "!="]), A(i, rng.choice("ab")), A(j, rng.choice("ab"))]
+
+    def tree(d):
+        if d == 0 or rng.random() < 0.3:
+            return leaf()
+        r = rng.random()
+        if r < 0.3:
+            return [rng.choice(["not", "~"]), tree(d - 1)]
+        return [rng.choice(["and", "or"]), tree(d - 1), tree(d - 1)]
+    return {"k": "po", "mode": mode, "world": world, "kinds": kinds, "cond": tree(rng.randint(0, 2)),
+            "sel": list(range(len(kinds))), "wrap": [rng.choice(["not", "~"]) for _ in range(2)]}
 
 
 def cases(spec, ctx):
+    if spec["kind"] == "po":
+        for i in range(spec["n"]):
+            yield _po_case(ctx.rng(spec["sub"], i))
+        return
     if spec["kind"] == "exh2":
         from . import c02
         for i, tree in enumerate(C.enumerate_trees(c02.LEAVES2, spec["size"])):
@@ -109,6 +146,8 @@ def check_case(case, ctx):
     kinds = case["kinds"]
     prod = [tuple(r) for r in multi.expected({**case, "cond": None}, world)]
     ctx.cls(f"cls:nvars={len(kinds)}")
+    if case.get("k") == "po":
+        ctx.cls("cls:partial_order:" + case["mode"])
     results = []
     nwrap = len(case["wrap"])
     deepest = _wrapped(case["cond"], case["wrap"], nwrap)
